@@ -170,6 +170,33 @@ func gcScenarioF26(c *Ctx) (*gcHist, bool, error) {
 	return g, rep, nil
 }
 
+// F27 (managed mode): the caller re-writes b at the SAME timestamp between scan and write-back;
+// the write-back is a blind Put of key@version and puts the old value back on top.
+func gcScenarioF27(c *Ctx) (*gcHist, bool, error) {
+	g, err := newGcHist(c, gcOpts(true), 1)
+	if err != nil {
+		return nil, false, err
+	}
+	defer g.closeAll()
+	g.keys = [][]byte{[]byte("b"), []byte("p")}
+	b := []byte("b")
+	g.mts = 1
+	g.write(b, big('1'))           // b@2
+	g.write([]byte("p"), big('p')) // p@3: file 1 sealed
+	nf := c.nFail
+	err = g.gcRun(1, 0, nil, func() {
+		g.mts = 1
+		g.write(b, big('2')) // b@2 again, other value
+		g.mts = 3
+	}, nil)
+	if err != nil {
+		return g, false, err
+	}
+	rep := c.nFail > nf
+	g.finish()
+	return g, rep, nil
+}
+
 // deferred deletion: an iterator is open when the rewrite finishes; the file stays until the
 // iterator is closed and the iterator still reads the old pointers.
 func gcScenarioDeferred(c *Ctx) (*gcHist, bool, error) {
@@ -277,6 +304,7 @@ var gcScenarios = []gcScenario{
 	{"F2", gcScenarioF2},
 	{"F23", gcScenarioF23},
 	{"F26", gcScenarioF26},
+	{"F27", gcScenarioF27},
 	{"2286-regression", gcScenario2286},
 	{"deferred-deletion", gcScenarioDeferred},
 	{"F8", gcScenarioF8},
